@@ -331,6 +331,7 @@ type opRec struct {
 	op       mwOp
 	invStep  int
 	retStep  int
+	txB, txA int // number of recorded transitions at invoke / return
 	res      am.Result
 	done     bool
 	panicked string
@@ -365,6 +366,7 @@ type mw struct {
 	errs    []string // ErrInternal drain
 
 	onTxInit     []func(tx *txRec, prev *txRec)
+	onTxStart    []func(tx *txRec)
 	onTxEnd      []func(tx *txRec)
 	onHandler    []func(c *hCall, e *am.Event)
 	onHandlerEnd []func(c *hCall)
@@ -420,6 +422,9 @@ func (t *mwTracer) TransitionStart(tx *am.Transition) {
 	r.tb = slices.Clone(tx.TimeBefore)
 	if r.initStep == 0 {
 		r.initStep = w.s.Step()
+	}
+	for _, f := range w.onTxStart {
+		f(r)
 	}
 }
 
@@ -584,10 +589,23 @@ func (w *mw) handle(b int, name string, e *am.Event, final bool) bool {
 	return ret
 }
 
+// handlerInFinal reports whether the handler currently running (if any) is a
+// final one.
+func (w *mw) handlerInFinal() bool {
+	if len(w.calls) == 0 {
+		return false
+	}
+	c := w.calls[len(w.calls)-1]
+	if c.finished {
+		return false
+	}
+	return strings.HasSuffix(c.name, am.SuffixState) || strings.HasSuffix(c.name, am.SuffixEnd)
+}
+
 // exec performs one API call and records it.
 func (w *mw) exec(task string, op mwOp, fromHandler bool) *opRec {
 	m := w.m
-	r := &opRec{task: task, op: op, invStep: w.s.Step(), fromH: fromHandler}
+	r := &opRec{task: task, op: op, invStep: w.s.Step(), fromH: fromHandler, txB: len(w.txs)}
 	w.ops = append(w.ops, r)
 	var args am.A
 	if op.id != "" {
@@ -633,6 +651,10 @@ func (w *mw) exec(task string, op mwOp, fromHandler bool) *opRec {
 	}()
 	r.done = true
 	r.retStep = w.s.Step()
+	r.txA = len(w.txs)
+	if w.s.Stopped() {
+		return r
+	}
 	if !fromHandler {
 		r.after = m.Time(nil)
 		r.activeA = m.ActiveStates(nil)
